@@ -29,6 +29,16 @@ def spell_port(rnd, proto, plat, version, p, names_tbl):
     return out
 
 
+GROUP_NAMES = ["G1", "SRV", "any", "anyX", "any-servers", "host", "hostA", "10net", "10.0.0.0/8", "eq", "log", "WEB_1", "a.b"]
+
+
+def spell_side(rnd, plat, side):
+    """tokens of one address: a set (base, mask) in one of its spellings, or a group reference"""
+    if side[0] == "group":
+        return ["object-group" if plat == "ios" else "addrgroup", side[1]]
+    return ag.spell(rnd, plat, side[1], side[2])[1].split()
+
+
 def valid_text(rnd, ca, plat, version, a, seq=None):
     """One accepted spelling (token list) of the abstract group-free ACE [a] on the platform."""
     from cisco_acl import port_name as pn, protocol as pr
@@ -49,9 +59,9 @@ def valid_text(rnd, ca, plat, version, a, seq=None):
         toks.append(str(seq))
     toks.append("permit" if a["permit"] else "deny")
     toks.append(ptxt)
-    toks += ag.spell(rnd, plat, a["src"][1], a["src"][2])[1].split()
+    toks += spell_side(rnd, plat, a["src"])
     toks += spell_port(rnd, proto, plat, version, a["sport"], tbl)
-    toks += ag.spell(rnd, plat, a["dst"][1], a["dst"][2])[1].split()
+    toks += spell_side(rnd, plat, a["dst"])
     toks += spell_port(rnd, proto, plat, version, a["dport"], tbl)
     toks += list(a["flags"]) + [t for o in a.get("opts", []) for t in o] + list(a["logs"])
     return toks
@@ -113,6 +123,9 @@ def gen_cases(ctx, n_valid, n_bad, salt=0):
             for f in ("src", "dst"):
                 if rnd.random() < 0.5:
                     a[f] = ("set", a[f][1], ag.rand_nc_mask(rnd, 3))
+        if rnd.random() < 0.2:        # address-group references, with names that look like other tokens
+            for f in rnd.choice([("src",), ("dst",), ("dst",), ("src", "dst")]):
+                a[f] = ("group", rnd.choice(GROUP_NAMES), [])
         if rnd.random() < 0.2:        # keyword/value options: the pair must stay together, in this order
             a["opts"] = rnd.sample([("dscp", "af11"), ("precedence", "critical"), ("tos", "min-delay"), ("time-range", "alpha"),
                                     ("dscp", "ef"), ("fragments",), ("time-range", "zz9")], rnd.choice([1, 1, 2]))
